@@ -12,8 +12,8 @@ import sys, os, json, subprocess, inspect, textwrap, itertools
 from copy import deepcopy
 from fractions import Fraction
 
-sys.path.insert(0, '/verif')
-sys.path.insert(0, '/repo')
+sys.path.insert(0, __import__('os').path.dirname(__import__('os').path.dirname(__import__('os').path.dirname(__import__('os').path.abspath(__file__)))))
+sys.path.insert(0, __import__('os').environ.get('DEEPROB_REPO', '/repo'))
 import numpy as np
 from harness.spn import export_net
 from deeprob.spn.structure.node import Sum, Product, assign_ids
